@@ -13,6 +13,7 @@ import (
 	"bytes"
 	"fmt"
 	"io"
+	"sort"
 	"strings"
 	"sync/atomic"
 	"time"
@@ -169,7 +170,10 @@ func runC11(res *hx.Result, rng *hx.Rng, tier string, outdir string) {
 	}
 	var jobs []c11Job
 	for _, sc := range scs {
-		jobs = append(jobs, c11Jobs(sc)...)
+		js := c11Jobs(sc)
+		// late faults first: they have the most handlers registered before the loss
+		sort.SliceStable(js, func(a, b int) bool { return js[a].f.pos > js[b].f.pos })
+		jobs = append(jobs, js...)
 	}
 	obs := make([]*c11Obs, len(jobs))
 	next := int32(-1)
@@ -183,7 +187,7 @@ func runC11(res *hx.Result, rng *hx.Rng, tier string, outdir string) {
 					done <- struct{}{}
 					return
 				}
-				if atomic.LoadInt32(&c11Hung) >= 3 {
+				if atomic.LoadInt32(&c11HungFail) >= 3 || atomic.LoadInt32(&c11Hung) >= 24 {
 					continue // enough hung runs: the rest would only wait
 				}
 				obs[k] = c11Exec(jobs[k].sc, jobs[k].f, jobs[k].hold, hang)
